@@ -410,17 +410,18 @@ def cases(tier, what="forward"):
             bias = (n + N) % 2 == 0
             shp = [(N, Ci, H, W), (Co, Ci) + k] + ([(Co,)] if bias else [])
             add("conv2d", shp, dict(args))
-            if fw:
+            if fw or n % 4 == 1:
                 add("conv2d", shp, dict(args, kernel_size=sp(k, 1)), form="layer")
             if (fw or n % 3 == 0):
                 add("unfold", [(N, Ci, H, W)], dict(args, kernel_size=sp(k, 0)))
-                if fw:
+                if fw or n % 2 == 0:
                     add("unfold", [(N, Ci, H, W)], dict(args, kernel_size=sp(k, 2)), form="layer")
+                if fw:
                     if n % 5 == 0: add("unfold", [(N, Ci, H, W)], dict(args, kernel_size=sp(k, 0), pad_value=-1.5))
                 if ok:
                     L = lattice.conv_out(H, k[0], s[0], p[0], d[0]) * lattice.conv_out(W, k[1], s[1], p[1], d[1])
                     add("fold", [(N, Ci * k[0] * k[1], L)], dict(args, kernel_size=sp(k, 0), output_size=[H, W]))
-                    if fw:
+                    if fw or n % 2 == 0:
                         add("fold", [(N, Ci * k[0] * k[1], L)], dict(args, kernel_size=sp(k, 1), output_size=(H if H == W else [H, W])), form="layer")
     n = 0
     for (ga, gb) in geoms2d(tier, pool=True, grad=not fw):
@@ -437,6 +438,11 @@ def cases(tier, what="forward"):
             for (N, C) in NCs:
                 add(o, [(N, C, H, W)], dict(args), pats=["generic"])
                 if o == "max_pool2d" and n % 2 == 0: add(o, [(N, C, H, W)], dict(args), pats=["ties"])
+                if not fw and n % 3 == 0:
+                    add(o, [(N, C, H, W)], dict(args), form="layer")
+                    if s == k:
+                        a2 = dict(args); del a2["stride"]
+                        add(o, [(N, C, H, W)], a2, form="layer")
                 if fw and (N, C) == (2, 2):
                     add(o, [(N, C, H, W)], dict(args), form="layer")
                     if s == k and ok:
@@ -472,7 +478,7 @@ def cases(tier, what="forward"):
         add("dropout", [(3,)], {"p": p, "u": [0.1, 0.1, 0.1], "training": False})
     add("dropout", [(3,)], {"u": [0.7, 0.2, 0.9], "training": True})
     # --- Flatten layer
-    if fw:
+    if True:
         for s in [(2, 3), (2, 3, 2), (1, 2, 2, 3)]:
             add("flatten_layer", [s])
             for a in lattice.dims(len(s)):
